@@ -123,8 +123,8 @@ def gen(rng, scenario, tier):
 
 def _cmp(ctx, name, P, T, i, what):
     oP, oT = adapters.observe(P), adapters.observe(T)
-    if canon(oP) != canon(oT):
-        key = next(k for k in oT if canon(oP.get(k)) != canon(oT[k]))
+    if not ctx.same_obs(oP, oT):
+        key = next(k for k in oT if not ctx.same_obs(oP.get(k), oT[k]))
         ctx.violation("twin", f"C16:{name}:{key}",
                       f"event {i}: with {what} the detector reports {key}={str(oP.get(key))[:100]}; with canonical labels / None it reports {str(oT[key])[:100]}")
         raise EndRun()
